@@ -44,7 +44,7 @@ structure Conn (α : Type) where
   segment : Int
   /-- `center_depth` -/
   depth : α
-  deriving Inhabited
+  deriving Inhabited, DecidableEq
 
 /-- The identity of a connection that no operation of this family may change: cell,
 completion number, sort value, segment. -/
